@@ -154,6 +154,50 @@ fn python_config(spec: &WorldSpec, world: &BuiltWorld) -> Result<String, String>
 }
 
 
+/// a PosMatcher specification for Python and the ids it must select (None: it must be rejected)
+fn gen_pos_spec(rng: &mut Rng, pos_list: &[Vec<String>]) -> (Value, Option<Vec<u16>>) {
+    if rng.chance(1, 4) {
+        // predicate on one component
+        let idx = rng.below(6);
+        let val = if rng.chance(1, 8) { "なし".to_string() } else { rng.pick(pos_list)[idx].clone() };
+        let ids: Vec<u16> = pos_list.iter().enumerate().filter(|(_, p)| p[idx] == val).map(|(i, _)| i as u16).collect();
+        return (json!({"kind":"fn","index":idx,"value":val}), Some(ids));
+    }
+    let mut tuples = vec![];
+    let mut ids: Vec<u16> = vec![];
+    let mut rejected = false;
+    for _ in 0..1 + rng.below(3) {
+        let base = rng.pick(pos_list).clone();
+        let len = match rng.below(5) {
+            0 => rng.below(6),
+            _ => 6,
+        };
+        let mut t: Vec<Option<String>> = base.iter().take(len).map(|x| Some(x.clone())).collect();
+        for e in t.iter_mut() {
+            if rng.chance(1, 3) {
+                *e = None;
+            }
+        }
+        if rng.chance(1, 12) && !t.is_empty() {
+            let k = rng.below(t.len());
+            t[k] = Some("存在しない".to_string());
+        }
+        let hit: Vec<u16> = pos_list
+            .iter()
+            .enumerate()
+            .filter(|(_, p)| t.iter().enumerate().all(|(k, e)| e.as_ref().map(|e| e == &p[k]).unwrap_or(true)))
+            .map(|(i, _)| i as u16)
+            .collect();
+        if hit.is_empty() {
+            rejected = true;
+        }
+        ids.extend(hit);
+        tuples.push(t);
+    }
+    (json!({"kind":"tuples","tuples":tuples}), if rejected { None } else { Some(ids) })
+}
+
+
 /// one script: tokenizers, list slots and operations with expectations from fresh Rust objects
 #[allow(clippy::too_many_arguments)]
 pub fn gen_script(rng: &mut Rng, spec: &WorldSpec, built: &BuiltWorld, cfg: &str, si: usize, seed: u64, nops_hint: usize, with_pretok: bool) -> Result<Value, String> {
@@ -209,7 +253,7 @@ pub fn gen_script(rng: &mut Rng, spec: &WorldSpec, built: &BuiltWorld, cfg: &str
         let nops = nops_hint;
         for _ in 0..nops {
             let store = rng.below(n_slots);
-            match rng.weighted(&[50, 18, 8, 10, 8, 3, 3]) {
+            match rng.weighted(&[50, 18, 8, 10, 8, 3, 3, 6, 5, 2]) {
                 0 => {
                     // tokenize
                     let t = rng.below(ntok);
@@ -385,6 +429,88 @@ pub fn gen_script(rng: &mut Rng, spec: &WorldSpec, built: &BuiltWorld, cfg: &str
                     let b = gen_text(&mut rng, &spec.keys).replace('\u{0}', "");
                     let sur: u32 = [0xd800u32, 0xdbff, 0xdc00, 0xdfff][rng.below(4)];
                     ops.push(json!({"op":"tokenize_surrogate","t":t,"before":a,"after":b,"surrogate": sur}));
+                }
+                7 => {
+                    // PosMatcher: built from partial tuples or a predicate, combined with | & - ~, applied to morphemes
+                    let pos_list = &dict.grammar().pos_list;
+                    if pos_list.is_empty() {
+                        continue;
+                    }
+                    let (a, a_ids) = gen_pos_spec(&mut rng, pos_list);
+                    let comb = match rng.below(6) {
+                        0 => Some("or"),
+                        1 => Some("and"),
+                        2 => Some("sub"),
+                        3 => Some("not"),
+                        _ => None,
+                    };
+                    let (b, b_ids) = if matches!(comb, Some("or" | "and" | "sub")) {
+                        let (b, i) = gen_pos_spec(&mut rng, pos_list);
+                        (b, i)
+                    } else {
+                        (Value::Null, None)
+                    };
+                    let mut op = json!({"op":"posmatch","a":a,"b":b,"comb":comb});
+                    match (a_ids, comb, b_ids) {
+                        (None, _, _) | (_, Some("or" | "and" | "sub"), None) => {
+                            op["expect"] = json!({"error": true});
+                        }
+                        (Some(ai), comb, bi) => {
+                            use sudachi::pos::PosMatcher;
+                            let ma = PosMatcher::new(ai.iter().cloned());
+                            let res = match (comb, bi) {
+                                (Some("or"), Some(bi)) => ma.union(&PosMatcher::new(bi.iter().cloned())),
+                                (Some("and"), Some(bi)) => ma.intersection(&PosMatcher::new(bi.iter().cloned())),
+                                (Some("sub"), Some(bi)) => ma.difference(&PosMatcher::new(bi.iter().cloned())),
+                                (Some("not"), _) => PosMatcher::new((0..pos_list.len()).map(|x| x as u16).filter(|x| !ma.matches_id(*x))),
+                                _ => ma,
+                            };
+                            let mut ids: Vec<u16> = res.entries().collect();
+                            ids.sort();
+                            let mut poses: Vec<Vec<String>> = ids.iter().map(|i| pos_list[*i as usize].clone()).collect();
+                            poses.sort();
+                            op["expect"] = json!({"n": ids.len(), "pos": poses});
+                            let src = rng.below(n_slots);
+                            if let Some(sl) = &slots[src] {
+                                if sl.valid && sl.list.subset().contains(InfoSubset::POS_ID) {
+                                    let m: Vec<bool> = sl.list.iter().map(|m| res.matches_id(m.part_of_speech_id())).collect();
+                                    op["list"] = json!(src);
+                                    op["of_fill"] = json!(sl.fill);
+                                    op["expect"]["matches"] = json!(m);
+                                }
+                            }
+                        }
+                    }
+                    ops.push(op);
+                }
+                8 => {
+                    // Morpheme.get_word_info() of a morpheme of a valid list: every attribute
+                    let src = rng.below(n_slots);
+                    if let Some(sl) = &slots[src] {
+                        if sl.valid && sl.list.len() > 0 {
+                            let idx = rng.below(sl.list.len());
+                            let m = sl.list.get(idx);
+                            let wi = m.get_word_info();
+                            let raw = |v: &[sudachi::dic::word_id::WordId]| v.iter().map(|w| w.as_raw()).collect::<Vec<u32>>();
+                            ops.push(json!({"op":"word_info","list":src,"of_fill":sl.fill,"idx":idx,"expect":{
+                                "surface": wi.surface(), "head_word_length": wi.head_word_length(), "pos_id": wi.pos_id(),
+                                "normalized_form": wi.normalized_form(), "dictionary_form_word_id": wi.dictionary_form_word_id(),
+                                "dictionary_form": wi.dictionary_form(), "reading_form": wi.reading_form(),
+                                "a_unit_split": raw(wi.a_unit_split()), "b_unit_split": raw(wi.b_unit_split()),
+                                "word_structure": raw(wi.word_structure()), "synonym_group_ids": wi.synonym_group_ids()}}));
+                        }
+                    }
+                }
+                9 => {
+                    // Dictionary.pos_of(id): inside and outside the table
+                    let n = dict.grammar().pos_list.len();
+                    let id = match rng.below(4) {
+                        0 => n + rng.below(3),
+                        1 => 65535 + rng.below(3),
+                        _ => rng.below(n.max(1)),
+                    };
+                    let e = dict.grammar().pos_list.get(id).cloned();
+                    ops.push(json!({"op":"pos_of","id":id,"expect":e}));
                 }
                 _ => {
                     // misuse that must raise, not crash
